@@ -25,7 +25,7 @@ func runC12(c *Ctx) {
 	c.Rule("(a) Seek with whence in {0,1,2,7} x deltas around 0, the size and negative results, on a real File after seeded prior offsets; " +
 		"(b) seeded sequences of File methods (Read, Write, ReadAt, WriteAt, Seek, WriteTo, ReadFrom, Truncate, Stat) under every concurrency option against both servers, offset compared after each step with an os.File driven identically; " +
 		"(b') kind fseqm: the same random method sequences replayed on the extracted model of Xfer/FileOps.v (count, error, data, offset after every step; final content); " +
-		"(c) closed state: every method after Close returns os.ErrClosed, one CLOSE sent; (d) Close racing ReadAt/WriteAt/Stat/Truncate: no request carrying the handle after CLOSE; (d') kind closehammer: 2-6 goroutines repeating one method until it reports os.ErrClosed while Close is called after a seeded 20-420 us; " +
+		"(c) closed state: every method after Close returns os.ErrClosed, one CLOSE sent; (d) Close racing ReadAt/WriteAt/Stat/Truncate: no request carrying the handle after CLOSE; (c') kind closefails: CLOSE answered with a failure status: Close returns the error and the File is closed all the same; (d') kind closehammer: 2-6 goroutines repeating one method until it reports os.ErrClosed while Close is called after a seeded 20-420 us; " +
 		"non-trivial = sequence step that moves the offset or fails")
 	// (a) Seek cases: model-compared
 	dir, err := os.MkdirTemp("", "vh-c12-")
@@ -92,6 +92,9 @@ func runC12(c *Ctx) {
 	}
 	for i := 0; i < nrace; i++ {
 		c12CloseRace(c, i)
+	}
+	for i := 0; i < 16; i++ {
+		c12CloseFails(c, i)
 	}
 	nham := 400
 	if c.Thorough() {
@@ -468,4 +471,70 @@ func c12CloseHammer(c *Ctx, i int) {
 	}
 	c.Oracle(n, ok, why)
 	c.Stat("closehammer_" + []string{"truncate", "stat", "readat", "writeat"}[kind])
+}
+
+// c12CloseFails: the server answers CLOSE with a failure status (or the transport dies under the CLOSE). Close returns
+// that error - and the File is closed all the same: every method afterwards returns os.ErrClosed, one CLOSE was sent,
+// nothing carrying the handle follows it (os.File behaves the same way when close(2) fails).
+func c12CloseFails(c *Ctx, i int) {
+	c1, c2 := net.Pipe()
+	code := []uint32{4, 3, 2, 9}[i%4]
+	peer := &filePeer{store: patternBytes(0, 64), maxTx: 32768, regular: true, rng: rand.New(rand.NewSource(int64(i))), window: 1, failClose: code}
+	go peer.serve(c2)
+	cl, err := sftp.NewClientPipe(c1, c1, sftp.MaxPacketUnchecked(8))
+	if err != nil {
+		c.Diag("client: %v", err)
+		return
+	}
+	defer cl.Close()
+	f, err := cl.Open("/f")
+	if err != nil {
+		c.Diag("open: %v", err)
+		return
+	}
+	if i%2 == 1 {
+		f.ReadAt(make([]byte, 4), 0)
+	}
+	cerr := f.Close()
+	var after []error
+	_, e := f.Read(make([]byte, 1))
+	after = append(after, e)
+	_, e = f.Write([]byte("x"))
+	after = append(after, e)
+	_, e = f.ReadAt(make([]byte, 1), 0)
+	after = append(after, e)
+	_, e = f.WriteAt([]byte("x"), 0)
+	after = append(after, e)
+	_, e = f.Seek(0, io.SeekStart)
+	after = append(after, e)
+	_, e = f.Stat()
+	after = append(after, e)
+	after = append(after, f.Truncate(1), f.Chmod(0o600), f.Sync(), f.Close())
+	var buf bytes.Buffer
+	_, e = f.WriteTo(&buf)
+	after = append(after, e)
+	_, e = f.ReadFrom(bytes.NewReader([]byte("zz")))
+	after = append(after, e)
+	peer.mu.Lock()
+	closes, afterClose := peer.closes, peer.afterClose
+	peer.mu.Unlock()
+	n := c.Case("closefails", kvi("i", i), kvx("status", uint64(code)))
+	c.NT(n)
+	ok, why := true, ""
+	if cerr == nil {
+		ok, why = false, fmt.Sprintf("Close returned nil although the server answered CLOSE with status %d", code)
+	}
+	for idx, e := range after {
+		if !errors.Is(e, os.ErrClosed) {
+			ok, why = false, fmt.Sprintf("method #%d after a Close that reported an error returned %v, not os.ErrClosed", idx, e)
+		}
+	}
+	if closes != 1 {
+		ok, why = false, fmt.Sprintf("%d CLOSE requests were sent for one File", closes)
+	}
+	if afterClose != 0 {
+		ok, why = false, fmt.Sprintf("%d requests carrying the handle were written to the wire after CLOSE", afterClose)
+	}
+	c.Oracle(n, ok, why)
+	c.Stat("closefails")
 }
